@@ -18,8 +18,9 @@ PROP = "C11"
 LEVEL = "exploration"
 TIMEOUT_S = 120.0
 RULE = ("one run = 2..8 actors (real processes, some with 2 threads) with seeded scripts over 3 cached functions x 3 "
-        "argument values (call, call with expires_after, call_and_shelve().get(), reduce_size by items/bytes/age, "
-        "Memory.clear, MemorizedFunc.clear) x seeded grant order at file-system-call granularity (random with "
+        "argument values (call, Memory.eval, call with expires_after, call_and_shelve().get(), reduce_size by items/bytes/age, "
+        "Memory.clear, MemorizedFunc.clear) x optional damaged established entries (truncated output.pkl, missing / empty "
+        "metadata.json; with and without mmap_mode) x seeded grant order at file-system-call granularity (random with "
         "stickiness, bounded pre-emptions, or targeted at check-then-act windows) x optional kills of actors; "
         "distinct = digest of the (actor, op kind, path class) grant sequence; non-trivial = at least two actors "
         "were interleaved inside each other's cached calls")
@@ -31,7 +32,8 @@ STUBBED = ["scheduling of file-system calls (turn-based controller over pipes)",
 ASSUMPTIONS = ["each file-system call is atomic; interleaving happens between calls (and between raw write(2)s)",
                "reduce_size must not raise because of concurrent activity (eviction tolerates vanished entries); Memory.clear() / "
                "MemorizedFunc.clear() may (two concurrent clears race in delete_folder on the unchanged tree): observation only",
-               "construction of Memory / cached wrappers happens in a quiet set-up phase: the statement is about calls",
+               "construction of Memory and of the long-lived cached wrappers happens in a quiet set-up phase; Memory.eval (wrap + call) "
+               "runs inside the concurrent phase",
                "exceptions raised by reduce_size / clear themselves are observations, not verdicts"]
 
 N_RUNS = {"quick": 1200, "thorough": 60000}
@@ -45,8 +47,10 @@ def gen_script(rng, n_ops, focus=False):
         fn = rng.choice(FUNCS); x = rng.randint(1, 3)
         if focus:            # many writers of the same multi-write entry
             fn = "d"; x = rng.choice([1, 1, 2]); r = r * 0.75
-        if r < 0.45:
+        if r < 0.38:
             sc.append(["call", fn, x])
+        elif r < 0.45:
+            sc.append(["eval", fn, x])        # Memory.eval: wraps the function anew, then calls it
         elif r < 0.6:
             sc.append(["callcb", fn, x])
         elif r < 0.7:
@@ -72,8 +76,16 @@ def gen_case(rng):
         # steady state: an established cache, fresh processes that only call -- every prefilled key must be a hit
         actors = [[[[rng.choice(["call", "call", "shelve"]), rng.choice(FUNCS), rng.choice([1, 2])] for _ in range(rng.randint(1, 3))]]
                   for _ in range(rng.choice([2, 3, 4, 6]))]
-        return {"actors": actors, "prefill": True, "sched_seed": rng.randrange(1 << 31),
+        case = {"actors": actors, "prefill": True, "sched_seed": rng.randrange(1 << 31),
                 "strategy": rng.choice(["random", "sticky", "targeted", "targeted"]), "kills": 0, "compress": rng.random() < 0.15}
+        if rng.random() < 0.4:
+            # stored-byte fault: some established entries are damaged (truncated output.pkl and / or unreadable
+            # metadata, as an interrupted copy of the cache leaves them); concurrent callers must all recompute
+            case["damage"] = [[fn, x, rng.choice(["trunc_half", "trunc_1", "empty", "trunc_half+meta_missing", "trunc_half+meta_empty"])]
+                              for fn in FUNCS for x in (1, 2) if rng.random() < 0.5] or [["d", 1, "trunc_half"]]
+            case["actors"] = [[[["call", o[1], o[2]] for o in sc] for sc in scs] for scs in actors]
+            case["mmap"] = rng.random() < 0.5
+        return case
     case = {"actors": actors, "prefill": rng.random() < (0.1 if focus else 0.5), "sched_seed": rng.randrange(1 << 31),
             "strategy": rng.choice(["random", "sticky", "sticky", "pct", "targeted", "targeted"]),
             "kills": rng.choice([0, 0, 0, 1, 2]), "compress": rng.random() < 0.15}
@@ -88,7 +100,7 @@ def plan(tier, seed):
 # -----------------------------------------------------------------------------
 # actor side
 
-def _do_ops(aid, tid, script, mem, cached, cachedcb, vmod_calls=()):
+def _do_ops(aid, tid, script, mem, cached, cachedcb, vmod_calls=(), raw=None):
     out = []
     for op in script:
         try:
@@ -97,6 +109,8 @@ def _do_ops(aid, tid, script, mem, cached, cachedcb, vmod_calls=()):
                 v = cached[op[1]](op[2])
                 out.append((op, "value", v))
                 out.append((op, "executed", len(vmod_calls) - n0))
+            elif op[0] == "eval":
+                out.append((op, "value", mem.eval(raw[op[1]], op[2])))
             elif op[0] == "callcb":
                 out.append((op, "value", cachedcb[op[1]](op[2])))
             elif op[0] == "shelve":
@@ -123,7 +137,7 @@ def _do_ops(aid, tid, script, mem, cached, cachedcb, vmod_calls=()):
     return out
 
 
-def actor_main(root, aid, scripts, to_ctl, from_ctl, seed, compress):
+def actor_main(root, aid, scripts, to_ctl, from_ctl, seed, compress, mmap=False):
     from joblib import Memory, expires_after
     warnings.simplefilter("ignore")
     __import__("logging").disable(50)
@@ -133,9 +147,10 @@ def actor_main(root, aid, scripts, to_ctl, from_ctl, seed, compress):
     threading.current_thread()._sim_tid = 0
     vmod = simfs.load_module(root)
     vmod.ACTOR = aid
-    mem = Memory(os.path.join(root, "cache"), verbose=0, compress=compress)
+    mem = Memory(os.path.join(root, "cache"), verbose=0, compress=compress, mmap_mode="r" if mmap else None)
     cached = {n: mem.cache(getattr(vmod, n)) for n in FUNCS}
     cachedcb = {n: mem.cache(getattr(vmod, n), cache_validation_callback=expires_after(days=1)) for n in FUNCS}
+    raw = {n: getattr(vmod, n) for n in FUNCS}
     simfs.send_msg(to_ctl, (aid, 0, "READY", None, None))
     os.read(from_ctl[0], 1)
     ths = []
@@ -150,11 +165,11 @@ def actor_main(root, aid, scripts, to_ctl, from_ctl, seed, compress):
             parked.set()
             if os.read(from_ctl[tid], 1) != b"g":
                 os._exit(98)
-            res = _do_ops(aid, tid, scripts[tid], mem, cached, cachedcb, vmod.CALLS)
+            res = _do_ops(aid, tid, scripts[tid], mem, cached, cachedcb, vmod.CALLS, raw)
             simfs.send_msg(to_ctl, (aid, tid, "TDONE", res, None))
         t = threading.Thread(target=body); t.start(); ths.append(t)
         parked.wait()
-    res = _do_ops(aid, 0, scripts[0], mem, cached, cachedcb, vmod.CALLS)
+    res = _do_ops(aid, 0, scripts[0], mem, cached, cachedcb, vmod.CALLS, raw)
     simfs.send_msg(to_ctl, (aid, 0, "TDONE", res, None))
     for t in ths:
         t.join()
@@ -200,6 +215,19 @@ def run_case(case):
                     c = mem.cache(getattr(vmod, n))
                     for x in (1, 2):
                         c(x)
+                    for fn_, x_, kind in case.get("damage", ()):
+                        if fn_ != n:
+                            continue
+                        ed = os.path.join(mem.store_backend.location, c.func_id, c._get_args_id(x_))
+                        data = open(os.path.join(ed, "output.pkl"), "rb").read()
+                        k0 = kind.split("+")[0]
+                        cut = {"trunc_half": len(data) // 2, "trunc_1": len(data) - 1, "empty": 0}[k0]
+                        with open(os.path.join(ed, "output.pkl"), "wb") as fh_:
+                            fh_.write(data[:cut])
+                        if kind.endswith("meta_missing"):
+                            os.unlink(os.path.join(ed, "metadata.json"))
+                        elif kind.endswith("meta_empty"):
+                            open(os.path.join(ed, "metadata.json"), "w").close()
                 # deterministic access times (the kernel's are coarse real time): oldest first in path order
                 k_ = 0
                 for dp, dn, fns in sorted(os.walk(os.path.join(root, "cache"))):
@@ -211,6 +239,22 @@ def run_case(case):
             k, r = fork_run(pre, 60)
             if k != "ok":
                 return {"verdict": None, "harness_error": "prefill: %s %s" % (k, str(r)[:300])}
+        # entries damaged on purpose stay damaged until somebody recomputes them: the invariants below skip a final
+        # name whose bytes are still exactly the injected damage
+        injected = {}
+        if case.get("damage"):
+            for dp, dn, fns in os.walk(os.path.join(root, "cache")):
+                if "output.pkl" in fns:
+                    try:
+                        joblib.load(os.path.join(dp, "output.pkl"))
+                    except BaseException:  # noqa
+                        injected[os.path.join(dp, "output.pkl")] = open(os.path.join(dp, "output.pkl"), "rb").read()
+
+        def still_injected(fin):
+            try:
+                return fin in injected and open(fin, "rb").read() == injected[fin]
+            except OSError:
+                return False
         ents = {}          # (aid, tid) -> dict
         actors = {}
         for aid, scripts in enumerate(case["actors"]):
@@ -223,7 +267,7 @@ def run_case(case):
                     for tid, (r_, w_) in c2a.items():
                         os.close(w_)
                     actor_main(root, aid, scripts, a2c_w, {tid: r_ for tid, (r_, w_) in c2a.items()},
-                               H(case["sched_seed"], aid) % 100000, case["compress"])
+                               H(case["sched_seed"], aid) % 100000, case["compress"], case.get("mmap", False))
                 except BaseException:  # noqa
                     import traceback
                     try:
@@ -356,6 +400,8 @@ def run_case(case):
                 fin = os.path.join(d, "output.pkl")
                 checks[0] += 1
                 try:
+                    if still_injected(fin):
+                        raise FileNotFoundError
                     v = joblib.load(fin)
                     if not (isinstance(v, tuple) and len(v) >= 3 and v == simfs.expected(1, v[1], (v[2],))):
                         transient = ("wrong", repr(v)[:80], nsteps)
@@ -401,13 +447,13 @@ def run_case(case):
                         verdict = {"class": "reduce_size_raises", "detail": "actor %d: %s raised %s: %s at %s" % (aid, op, val[0], val[1], val[2]),
                                    "sig": {"what": "reduce_size_raises", "exc": val[0]}}
                 if tag == "executed":
-                    if (case["prefill"] and not evictors and not has_cb and not killed and op[2] in (1, 2) and val != 0
+                    if (case["prefill"] and not evictors and not has_cb and not killed and op[2] in (1, 2) and val != 0 and not case.get("damage")
                             and n_threads_of[aid] == 1 and verdict is None):
                         verdict = {"class": "recomputed_although_cached", "detail": "actor %d: %s executed the function %d time(s) although the "
                                    "entry was computed before the run and nobody evicts, clears or expires in this run" % (aid, op, val),
                                    "sig": {"what": "recomputed_although_cached"}}
                     continue
-                if op[0] in ("call", "callcb", "shelve"):
+                if op[0] in ("call", "eval", "callcb", "shelve"):
                     if tag == "exception":
                         where = val[2][-1][2] if val[2] else None
                         chain = [f[2] for f in val[2]]
@@ -419,7 +465,7 @@ def run_case(case):
                         # evictors, a concurrent FIRST user of the same function can wipe the function's directory: it may
                         # read func_code.py while another actor is writing it in place (empty / partial code looks like a
                         # source change).  Without prefill every other user of the function is such a potential clearer.
-                        others = any(o[0] in ("call", "callcb", "shelve") and o[1] == op[1]
+                        others = any(o[0] in ("call", "eval", "callcb", "shelve") and o[1] == op[1]
                                      for (a2, t2), e2 in ents.items() if (a2, t2) != (aid, tid)
                                      for o in case["actors"][a2][t2])
                         # ... and a concurrent caller with expires_after treats an entry whose metadata are not written yet
@@ -447,6 +493,8 @@ def run_case(case):
                 bad = []
                 for dp, dn, fns in os.walk(os.path.join(root, "cache")):
                     if "output.pkl" in fns:
+                        if still_injected(os.path.join(dp, "output.pkl")):
+                            continue
                         try:
                             v = joblib.load(os.path.join(dp, "output.pkl"))
                         except BaseException as e_:  # noqa
@@ -462,6 +510,8 @@ def run_case(case):
                 verdict = {"class": "entry_not_complete_at_quiescence", "detail": str(bad[:3]),
                            "sig": {"what": "entry_not_complete_at_quiescence", "kind": bad[0][0], "after_kill": bool(killed)}}
         faults = collections.Counter()
+        if case.get("damage"):
+            faults["damaged_established_entry"] += len(case["damage"])
         for k_ in killed:
             faults["actor_killed"] += 1
         return {"verdict": verdict, "digest": h.hexdigest()[:24], "shape": hs.hexdigest()[:16], "steps": nsteps,
@@ -499,5 +549,11 @@ def shrink(case):
         yield dict(case, prefill=False)
     if case["compress"]:
         yield dict(case, compress=False)
+    if case.get("mmap"):
+        yield dict(case, mmap=False)
+    dm = case.get("damage") or []
+    if len(dm) > 1:
+        for k in range(len(dm)):
+            yield dict(case, damage=dm[:k] + dm[k + 1:])
 
 SHRINK_SEEDS = 6
